@@ -175,8 +175,8 @@ func AbsAlt(c *cpualt.CPU) w65c816.State {
 //@   harness flat65 cpu=c ram=ram ram2=ram2 op=op
 //@   nosafety
 //@   requires c.E == 0 && !has(c.OnPC, uint32(c.RK)<<16|uint32(c.PC))
-//@   requires c.D == 0 || !w65c816.IsDecimalArith(op)
-//@   ensures impl.A == spec.A
+//@   ensures !spec.DecUndef ==> impl.A == spec.A
+//@   ensures old(c.M) == 1 ==> impl.A>>8 == spec.A>>8
 //@   ensures impl.X == spec.X
 //@   ensures impl.Y == spec.Y
 //@   ensures impl.S == spec.S
@@ -184,7 +184,9 @@ func AbsAlt(c *cpualt.CPU) w65c816.State {
 //@   ensures impl.PC == spec.PC
 //@   ensures impl.DBR == spec.DBR
 //@   ensures impl.K == spec.K
-//@   ensures impl.P == spec.P
+//@   ensures (old(c.D) == 0 || !w65c816.IsDecimalArith(op)) ==> impl.P == spec.P
+//@   ensures (old(c.D) == 1 && w65c816.IsDecimalArith(op) && !spec.DecUndef) ==> impl.P|0x40 == spec.P|0x40
+//@   ensures impl.P&0x3C == spec.P&0x3C
 //@   ensures impl.E == spec.E
 //@   ensures all(k, uint32, k < 0x1000000 ==> ram[k] == ram2[k])
 //@   ensures c.N <= 1 && c.V <= 1 && c.M <= 1 && c.X <= 1 && c.D <= 1 && c.I <= 1 && c.Z <= 1 && c.C <= 1 && c.E <= 1
@@ -202,8 +204,8 @@ func StepRefines65(c *cpu65c816.CPU, ram, ram2 *[1 << 24]byte, op byte) (impl, s
 //@   harness flatalt cpu=c ram=ram ram2=ram2 op=op
 //@   nosafety
 //@   requires c.E == 0 && !has(c.OnPC, uint32(c.RK)<<16|uint32(c.PC))
-//@   requires c.D == 0 || !w65c816.IsDecimalArith(op)
-//@   ensures impl.A == spec.A
+//@   ensures !spec.DecUndef ==> impl.A == spec.A
+//@   ensures old(c.M) == 1 ==> impl.A>>8 == spec.A>>8
 //@   ensures impl.X == spec.X
 //@   ensures impl.Y == spec.Y
 //@   ensures impl.S == spec.S
@@ -211,7 +213,9 @@ func StepRefines65(c *cpu65c816.CPU, ram, ram2 *[1 << 24]byte, op byte) (impl, s
 //@   ensures impl.PC == spec.PC
 //@   ensures impl.DBR == spec.DBR
 //@   ensures impl.K == spec.K
-//@   ensures impl.P == spec.P
+//@   ensures (old(c.D) == 0 || !w65c816.IsDecimalArith(op)) ==> impl.P == spec.P
+//@   ensures (old(c.D) == 1 && w65c816.IsDecimalArith(op) && !spec.DecUndef) ==> impl.P|0x40 == spec.P|0x40
+//@   ensures impl.P&0x3C == spec.P&0x3C
 //@   ensures impl.E == spec.E
 //@   ensures all(k, uint32, k < 0x1000000 ==> ram[k] == ram2[k])
 //@   ensures c.N <= 1 && c.V <= 1 && c.M <= 1 && c.X <= 1 && c.D <= 1 && c.I <= 1 && c.Z <= 1 && c.C <= 1 && c.E <= 1
